@@ -920,7 +920,7 @@ class Gaussian(Funsor, metaclass=GaussianMeta):
             new_ints = OrderedDict()
             kept_perm = []
             reduced_perm = []
-            for i, (k, v) in enumerate(self.inputs.items()):
+            for k, v in self.inputs.items():
                 if k not in reduced_vars:
                     inputs[k] = v
                 if v.dtype == "real":
@@ -929,6 +929,8 @@ class Gaussian(Funsor, metaclass=GaussianMeta):
                             f"Cannot sum along a real dimension: {repr(v)}"
                         )
                 else:
+                    # Batch axes are numbered over the integer inputs only.
+                    i = len(old_ints)
                     old_ints[k] = v
                     if k in reduced_vars:
                         reduced_perm.append(i)
